@@ -170,3 +170,6 @@ def check(ctx):
                         "the driver's message generator writes well-formed DLT messages (storage/serial framing per AUTOSAR layout) and its "
                         "sanitizer leaves no frame marker outside message starts (spurious_markers = 0 is recorded per case header)",
                         "31-bit FNV hash + length stand in for payload byte equality"]
+
+# round 6 (DESIGN.md 11.10)
+META["technique"] += ' Every third case of the buffered front-ends reads from a source that hands out at most 1 / 4097 / 6000 / 65536 bytes per call.'
